@@ -1,6 +1,71 @@
 """C03 - shell output reaches the operator byte-exact, in order, up to end of stream."""
+import json, os
 import brokerlib as B
 import vlib
+
+TIMPORTS = "From CRS Require Import Lib.Bytes Model.Terminal Judge.Common Judge.C03T."
+TCLAUSES = {1: "the terminal did not show exactly the bytes of the Plain lines, in order (lib/opshell modified, dropped or re-encoded shell output)",
+            11: "Model/Terminal.shown differs from what the real Shell wrote"}
+
+
+def term_cases(rng, n):
+    """byte sequences cut into reads the way proxyOut's 2048-byte buffer or a slow transport would cut them"""
+    texts = ["plain ascii line\n", "naïve café – 日本語 \u2603 \U0001F600\n" * 3, "é" * 1500 + "\n"]
+    out = []
+    for k in range(n):
+        kind = k % 5
+        if kind == 0:
+            data = rng.choice(texts).encode()
+        elif kind == 1:
+            data = bytes(rng.randrange(256) for _ in range(rng.randrange(1, 200)))              # not UTF-8 at all
+        elif kind == 2:
+            data = ("x" * rng.randrange(2040, 2050) + "é日本" * 5).encode()                       # a rune across the 2048 boundary
+        elif kind == 3:
+            data = b"\xff\xfe\x80\xc3" + bytes([0, 27, 8, 13, 10, 127]) + "ü".encode()[:1]     # invalid, control bytes, truncated rune
+        else:
+            data = "".join(rng.choice(["a", "é", "日", "\U0001F600", "\r\n", "\t"]) for _ in range(rng.randrange(1, 60))).encode()
+        how = rng.choice(["one", "bytes", "2048", "random"])
+        if how == "one":
+            chunks = [data]
+        elif how == "bytes":
+            chunks = [data[i:i + 1] for i in range(len(data))][:400] + ([data[400:]] if len(data) > 400 else [])
+        elif how == "2048":
+            chunks = [data[i:i + 2048] for i in range(0, len(data), 2048)]
+        else:
+            chunks, i = [], 0
+            while i < len(data):
+                j = i + rng.choice([1, 1, 2, 3, 7, 100, 2048])
+                chunks.append(data[i:j]); i = j
+        out.append({"i": k, "chunks": [c.hex() for c in chunks if c]})
+    return out
+
+
+def terminal_stream(run):
+    ok, binp, log = vlib.build_overlay_test(run.rundir, "lib/opshell")
+    run.checker_cmds.append("go1.26 test -c -tags verif -overlay (harness/overlay/opshell): TestVerifPlain feeds Plain lines to the real opshell.New shell "
+                            "(pty child) and captures what it writes")
+    if not ok:
+        run.oblige("opshell harness builds against /repo", False, log)
+        return
+    cases = term_cases(run.rng, 200 if run.tier == "quick" else 4000)
+    inf, outf = os.path.join(run.rundir, "plain.in"), os.path.join(run.rundir, "plain.out")
+    with open(inf, "w") as f:
+        for c in cases:
+            f.write(json.dumps(c) + "\n")
+    env = dict(os.environ, VERIF_CASES=inf, VERIF_OUT=outf, VERIF_TMP=run.rundir)
+    rc, out = vlib.run_under_pty([binp, "-test.run", "^TestVerifPlain$", "-test.count=1", "-test.timeout", "600s"], env, run.rundir, timeout=700)
+    res = [json.loads(l) for l in open(outf)] if os.path.exists(outf) else []
+    if rc != 0 or len(res) != len(cases) or any(r.get("fail") for r in res):
+        run.oblige("terminal: harness ran all cases under a pty", False, "rc=%s got %d of %d: %s" % (rc, len(res), len(cases), out[-1500:].decode(errors="replace")))
+        return
+    vlib.judge_stream(run, "terminal", TIMPORTS, "tcase", cases, res,
+                      lambda c, r: "mkt [%s] %s" % ("; ".join(vlib.coq_str(bytes.fromhex(h)) for h in c["chunks"]), vlib.coq_str(bytes.fromhex(r.get("shown", "")))),
+                      TCLAUSES, (0,),
+                      "last hop (lib/opshell): UTF-8 text, random non-UTF-8 bytes, control bytes, runes straddling the 2048-byte read boundary, cut into "
+                      "one chunk / single bytes / 2048-byte reads / random reads, sent as Plain lines to the real Shell with its output captured; "
+                      "non-trivial = contains non-ASCII bytes (tag 2: a chunk boundary inside a multi-byte sequence)",
+                      key_fn=lambda c: json.dumps(c["chunks"]))
+
 
 CLAUSES = {3: "C03 monitor failed: what was shown is not a prefix of what the attached shell sent (bytes lost, duplicated, reordered or modified), or "
               "a stream that ended by itself did not have everything shown before its close notice"}
@@ -58,9 +123,13 @@ def check(run):
                  "inside the broker; monitor only (shown = prefix of sent; all shown once drained after a self-end) - the model has an unbounded channel")
     hs = [B.gen_history(run.rng, run.rng.choice([10, 20, 40])) for _ in range(200 if run.tier == "quick" else 4000)]
     B.run_stream(run, binp, "histories", 3, hs, CLAUSES, "random histories (see C01)")
-    run.assumptions += ["Ctrl+O muting happens after the operator channel (lib/opshell) and is C19's subject",
+    terminal_stream(run)
+    run.assumptions += ["x/term's Terminal.Write passes bytes through while no line is being edited (the harness does not run ReadLine); the pty's own "
+                        "output processing (ONLCR) is outside the program",
+                        "Ctrl+O muting happens after the operator channel (lib/opshell) and is C19's subject",
                         "relative speeds are explored as orders of reads, forwards and drains inside testing/synctest, not as wall-clock timing"]
-    run.trusted += ["harness/overlay/iobroker", "props/brokerlib.py", "coq/Model/Broker.v tied by this correspondence"]
+    run.trusted += ["harness/overlay/iobroker", "props/brokerlib.py", "coq/Model/Broker.v tied by this correspondence",
+                    "harness/overlay/opshell/zz_verif_plain_test.go, coq/Model/Terminal.v"]
 
 
 def replay(run, path):
